@@ -16,6 +16,17 @@ CLAIMED = {
         technique="TLA+ spec + TLC exhaustive model checking; two-way conformance (spec->code replay, code->spec trace validation by TLC)"),
 }
 
+CLAIMED["C07"] = dict(
+    text="FJCoreMem.tla (the native storage layer: flat window, sentinels, pages with one fast valid range, API routing) is "
+         "model-checked exhaustively at page size 4 to REFINE the abstract FlipJump memory for every geometry x window x sentinel "
+         "mode x access pair; TLC-simulated scenarios of the same model are scaled to the real constants (2^14-word pages, far pages at "
+         "2^40..2^57 words, magic fill value) and run on every engine / window / forced-paged / ring-length / measurement configuration; "
+         "every observation incl. last-ops list and final memory is judged by TLC against FJMachine, which has no notion of layout.",
+    note="Trusted: FJCoreMem.tla as a transcription of the C routing; the scaling map; TLC. Bounded: model page size 4, <=3 segments; "
+         "real runs are the scaled scenarios and seeded generated images, not all images.",
+    ref="DESIGN.md section 2 (C07)",
+    technique="TLA+ refinement check with TLC (FJCoreMem => abstract memory) + scaled replay of TLC-generated scenarios judged by TLC trace validation against FJMachine")
+
 NOT_YET = {}
 
 
